@@ -151,6 +151,8 @@ def record(payload):
                 out.append({"tid": tid, "seed": seed, "hashseed": hs, "mode": payload["mode"], "inst": dict(inst, kind=inst["kind"]), "events": events})
                 tid += 1
                 continue
+            from ..frames import model_snapshot
+            snap_model = model_snapshot(model)
             _verif.set_tracer(tracer)
             try:
                 for op, fn in ((("marginalize", "calibrate"), ("maximize", "max_calibrate")) if payload["mode"] == "bp" else ()):
@@ -222,6 +224,8 @@ def record(payload):
                                            "normalised": False, "exc": True, "msg": repr(ex)[:200]})
             finally:
                 _verif.set_tracer(None)
+            # C16: calibration and queries never change the model (BN / MN / factor graph / junction tree) the engine was built on
+            events.append({"ev": "frame", "api": "BeliefPropagation", "same": model_snapshot(model) == snap_model})
             out.append({"tid": tid, "seed": seed, "hashseed": hs, "mode": payload["mode"], "inst": inst, "events": events})
             tid += 1
     return {"traces": out}
